@@ -40,7 +40,7 @@ PROPS = {
              ">=2 or above the spline order, or a margin/knot coordinate in a differentiated call; distinct = hash(spec, point, request). "
              "evaluations counts tables.",
         essential={"deriv_vs_ref": {"mask:mixed": 1.0, "deriv_along_order0": 0.3, "deriv:order>=2": 0.1, "deriv:above_spline_order": 0.1,
-                                    "gradient_checked": 1.0, "coord:high_margin": 0.1, "coord:on_knot": 0.1}},
+                                    "gradient_checked": 1.0, "gradient_via_evaluator": 0.3, "orders:known_mixed_pattern": 0.02, "coord:high_margin": 0.1, "coord:on_knot": 0.1}},
         assumptions=["reference derivative recursion D N_{i,m} = m(D N_{i,m-1}/(k_{i+m}-k_i) - D N_{i+1,m-1}/(k_{i+m+1}-k_{i+1})) on the span chosen by the one-sided convention",
                      "tolerance kappa*eps*M with the cancellation-aware magnitude M"],
     ),
